@@ -466,7 +466,7 @@ func genPrecision(r *rand.Rand) uint32 {
 	case 1:
 		return 18
 	case 2: // outside decimal64
-		return env.Pick(r, []uint32{19, 20, 25, 63, 64, 65, 100, 255, 256, 257, 300, 274, 65536 + 2})
+		return env.Pick(r, []uint32{19, 20, 25, 63, 64, 65, 100, 255, 256, 257, 300, 274, 1024 + 2})
 	}
 	return uint32(1 + r.Intn(18))
 }
